@@ -28,6 +28,7 @@ type route struct {
 	FailFirst   int               `json:"fail_first,omitempty"`  // the first k requests get FailStatus (or a reset if FailStatus==0)
 	FailStatus  int               `json:"fail_status,omitempty"` // status used while failing
 	AlwaysReset bool              `json:"always_reset,omitempty"`
+	TruncateAt  int               `json:"truncate_at,omitempty"` // announce the full Content-Length, send only this many bytes, then drop the connection
 	Tag         string            `json:"tag,omitempty"` // free-form label used by oracles (depth label, chain position, scope class...)
 }
 
@@ -182,6 +183,16 @@ func (o *origin) handle(w http.ResponseWriter, req *http.Request) {
 	noBody := status == 204 || status == 304 || (status >= 100 && status < 200)
 	if noBody {
 		ent = nil
+	}
+	if r.TruncateAt > 0 && len(ent) > r.TruncateAt && !noBody {
+		w.Header().Set("Content-Length", fmt.Sprint(len(ent)))
+		w.WriteHeader(status)
+		w.Write(ent[:r.TruncateAt])
+		if fl, ok := w.(http.Flusher); ok {
+			fl.Flush()
+		}
+		finish(status, ent[:r.TruncateAt], false, true)
+		panic(http.ErrAbortHandler) // the server drops the connection in the middle of the body
 	}
 	if !r.Chunked || noBody {
 		w.Header().Set("Content-Length", fmt.Sprint(len(ent)))
